@@ -122,10 +122,14 @@ class FancyIndex(list):
 class NTuple(tuple):
     """a namedtuple value: a tuple whose items are also reachable as attributes"""
 
-    def __new__(cls, name, fields, values):
+    def __new__(cls, name, fields, values, klass=None):
         t = tuple.__new__(cls, values)
         t.nt_name, t.nt_fields = name, tuple(fields)
+        t.cls = klass           # the class statement that subclasses the named tuple (methods, properties), if any
         return t
+
+    def __reduce__(self):
+        return (NTuple, (self.nt_name, self.nt_fields, tuple(self), self.cls))
 
 
 class Obj:
@@ -166,7 +170,18 @@ def vkey(v):
     if isinstance(v, (Arr, Opaque, Obj)):
         return v.key()
     if isinstance(v, dict):
-        return "{" + ",".join("%s:%s" % (k, vkey(x)) for k, x in sorted(v.items())) + "}"
+        return "{" + ",".join("%s:%s" % (k, vkey(x)) for k, x in sorted(v.items(), key=lambda kv: repr(kv[0]))) + "}"
+    if isinstance(v, tuple) and len(v) >= 2 and isinstance(v[0], str) and v[0] in TAGS and not isinstance(v, NTuple):
+        # function-like values: by identity of what they denote (a closure's environment may contain the closure itself)
+        if v[0] == "closure":
+            return "closure@%s:%d" % (getattr(v[1], "name", "lambda"), getattr(v[1], "lineno", 0))
+        if v[0] in ("boundmethod",):
+            return "method@%s.%s" % (vkey(v[1]), getattr(v[2], "name", "?"))
+        if v[0] == "partial":
+            return "partial(%s;%s;%s)" % (vkey(v[1]), vkey(list(v[2])), vkey(v[3]))
+        if v[0] == "pyfunc":
+            return "pyfunc@%d" % id(v[1])
+        return "%s:%s" % (v[0], v[1] if isinstance(v[1], str) else vkey(v[1]))
     if isinstance(v, (list, tuple)):
         return "[" + ",".join(vkey(x) for x in v) + "]"
     return repr(v)
@@ -224,6 +239,7 @@ def materialise(v):
 
 
 TAGS = ("npfunc", "function", "builtin", "import", "closure", "method", "module", "class", "boundmethod", "pyfunc", "regex", "rematch",
+        "partial", "attrgetter", "enumclass", "classattr", "foreignclass",
         "ntclass", "type", "typeobj")
 
 
@@ -485,6 +501,14 @@ ELEMENTWISE = {"cos", "sin", "tan", "exp", "arccos", "arcsin", "arctan", "sqrt",
 
 
 class Evaluator:
+    def __new__(cls, *args, **kwargs):
+        # one interpreter: `Evaluator(...)` builds the full one (classes, bound methods, exceptions, text: xfabsa/objeval.py) with
+        # E3's conventions (assertions noted, not checked; unknown calls opaque).  Subclasses choose their own base.
+        if cls is Evaluator:
+            from .objeval import FullEvaluator
+            return object.__new__(FullEvaluator)
+        return object.__new__(cls)
+
     def __init__(self, mod, inline=True, branch_policy=None, call_policy=None, max_depth=6, import_policy=None,
                  sign_policy=None):
         self.mod = mod
@@ -559,6 +583,7 @@ class Evaluator:
                 raise AnalysisError("E3: %s is wrapped by the decorator `%s`" % (fn.name, txt[:60]))
         env = {}
         self.bind_signature(fn, list(args), kwargs, env)
+        self.__dict__.setdefault("_locals_stack", []).append(local_names(fn))
         self.depth += 1
         prev = getattr(self, "current_fn", None)
         self.current_fn = fn.name
@@ -573,6 +598,7 @@ class Evaluator:
         finally:
             self.depth -= 1
             self.current_fn = prev
+            self._locals_stack.pop()
         # a generator function is run to completion (its loops are static here): the caller gets the list of yielded values
         return env["$yield"] if gen else None
 
@@ -665,6 +691,8 @@ class Evaluator:
             return
         if isinstance(st, ast.For):
             it = self.eval(st.iter, env)
+            if is_tagged(it):
+                it = self.iterate_tagged(it, st.iter)
             if isinstance(it, Opaque) and materialise(it) is not None:
                 it = materialise(it)
             if isinstance(it, Arr):
@@ -746,6 +774,20 @@ class Evaluator:
                 m = materialise(seq)
                 seq = m.data if m is not None else [Opaque(seq.base, seq.shape, seq.idx + (i,))
                                                      for i in range(len(target.elts))]
+            if isinstance(seq, dict):
+                seq = list(seq)
+            stars = [i for i, e in enumerate(target.elts) if isinstance(e, ast.Starred)]
+            if len(stars) == 1 and isinstance(seq, (list, tuple)) and len(seq) >= len(target.elts) - 1:
+                # head, *middle, tail = sequence
+                k = stars[0]
+                after = len(target.elts) - k - 1
+                seq = list(seq)
+                for t, v in zip(target.elts[:k], seq[:k]):
+                    self.assign(t, v, env)
+                self.assign(target.elts[k].value, seq[k:len(seq) - after], env)
+                for t, v in zip(target.elts[k + 1:], seq[len(seq) - after:] if after else []):
+                    self.assign(t, v, env)
+                return
             if not isinstance(seq, (list, tuple)) or len(seq) != len(target.elts):
                 raise AnalysisError("E3: cannot unpack (line %d)" % target.lineno)
             for t, v in zip(target.elts, seq):
@@ -926,6 +968,11 @@ class Evaluator:
                 # a tuple VALUE used as index is a multi-dimensional index (a list would be integer-array indexing)
                 out = []
                 for x_ in v0:
+                    if isinstance(x_, Arr) and len(x_.shape) == 1:
+                        x_ = list(x_.data)
+                    if isinstance(x_, (list, tuple)) and x_ and all(const_int(y_) is not None for y_ in x_):
+                        out.append(FancyIndex([const_int(y_) for y_ in x_]))       # one index array per axis
+                        continue
                     i_ = const_int(x_)
                     if i_ is None:
                         raise AnalysisError("E3: non-constant index `%s` (line %d)" % (unparse(sl), sl.lineno))
@@ -943,6 +990,9 @@ class Evaluator:
                 v = self.eval(e, env)
                 if v is None or v == ("npfunc", "newaxis"):
                     out.append(None)
+                    continue
+                if isinstance(v, slice):
+                    out.append(v)
                     continue
                 if isinstance(v, Arr) and len(v.shape) == 1:
                     v = list(v.data)
@@ -1381,6 +1431,8 @@ class Evaluator:
             nxt = []
             for e in envs:
                 it = self.eval(g.iter, e)
+                if is_tagged(it):
+                    it = self.iterate_tagged(it, g.iter)
                 if isinstance(it, Arr):
                     it = it.data
                 elif isinstance(it, Opaque):
@@ -1434,6 +1486,7 @@ class Evaluator:
             return self.eval(fn.body, env)
         if self.depth >= self.max_depth:
             raise AnalysisError("E3: inlining depth exceeded at local function %s" % fn.name)
+        self.__dict__.setdefault("_locals_stack", []).append(local_names(fn))
         gen = is_generator(fn)
         if gen:
             env["$yield"] = []
@@ -1445,6 +1498,7 @@ class Evaluator:
                 return r.value
         finally:
             self.depth -= 1
+            self._locals_stack.pop()
         return env["$yield"] if gen else None
 
     def e_IfExp(self, node, env):
@@ -1480,6 +1534,9 @@ class Evaluator:
                 raise AnalysisError("E3: key %r not in the modelled dictionary (line %d)" % (k, node.lineno))
             return base[k]
         return self.subscript(base, self.index_of(node.slice, env), node)
+
+    def foreign_object_call(self, dotted, args, kwargs, node):
+        return NotImplemented
 
     def foreign_helper_call(self, dotted, args, kwargs, node):
         """a function of another module of the repository that is not one of the pinned API names (a helper added there):
@@ -1584,8 +1641,19 @@ class Evaluator:
             else:
                 kwargs[k.arg] = v_
         self._call_env = env          # (the float shadow of a truncating conversion folds its argument a second time)
+        return self.dispatch_call(f, args, kwargs, node)
+
+    def dispatch_call(self, f, args, kwargs, node):
+        """apply a callable value to evaluated arguments"""
         if isinstance(f, tuple) and f:
             kind = f[0]
+            if kind == "partial":
+                return self.dispatch_call(f[1], list(f[2]) + list(args), dict(f[3], **kwargs), node)
+            if kind == "attrgetter":
+                if len(args) != 1 or kwargs:
+                    raise AnalysisError("E3: attrgetter called with %d arguments (line %d)" % (len(args), node.lineno))
+                vals = [self.get_attribute(args[0], a_, node) for a_ in f[1]]
+                return vals[0] if len(vals) == 1 else tuple(vals)
             if kind == "function":
                 return self.module_call(f[1], args, kwargs, node)
             if kind == "npfunc":
@@ -1614,6 +1682,7 @@ class Evaluator:
                 if r_ is not NotImplemented:
                     return r_
                 self.calls.append((name, [vkey(a) for a in args], node.lineno))
+                ev_index = len(self.events)
                 self.events.append(("import", name, list(args)))
                 if self.import_policy is not None:
                     r = self.import_policy(name, args, kwargs, node)
@@ -1621,6 +1690,12 @@ class Evaluator:
                         return r
                 r = self.foreign_helper_call(name, args, kwargs, node)
                 if r is not NotImplemented:
+                    return r
+                r = self.foreign_object_call(name, args, kwargs, node)
+                if r is not NotImplemented:
+                    # the call was evaluated inside its own module: what it does there is in the log, the call itself is no event
+                    if ev_index < len(self.events) and self.events[ev_index][:2] == ("import", name):
+                        del self.events[ev_index]
                     return r
                 return self.opaque_call(name, args, kwargs, node)
             if kind == "method":
@@ -1640,7 +1715,13 @@ class Evaluator:
         raise AnalysisError("E3: call of `%s` unsupported (line %d)" % (unparse(node.func)[:40], node.lineno))
 
     # ---------------------------------------------------------------- calls
+    def iterate_tagged(self, v, node):
+        """iteration over a function / class / module value: only an enumeration class has items"""
+        raise AnalysisError("E3: iteration over a %s value (line %d)" % (v[0], getattr(node, "lineno", 0)))
+
     def as_sequence(self, v, node):
+        if is_tagged(v):
+            return self.iterate_tagged(v, node)
         if isinstance(v, Arr):
             return [Arr(x) if isinstance(x, list) else x for x in v.data]
         if isinstance(v, Opaque):
@@ -1654,24 +1735,19 @@ class Evaluator:
             return list(v)
         raise AnalysisError("E3: iteration over %s (line %d)" % (type(v).__name__, getattr(node, "lineno", 0)))
 
-    def call_value(self, f, args, node):
-        """call a function value (closure, module function, operator, builtin) on evaluated arguments"""
-        if isinstance(f, tuple) and f:
-            if f[0] == "closure":
-                return self.call_closure(f, args, {}, node)
-            if f[0] == "function":
-                return self.module_call(f[1], args, {}, node)
-            if f[0] == "builtin":
-                return self.builtin(f[1], args, {}, node)
-            if f[0] == "npfunc":
-                return self.np_call(f[1], args, {}, node)
-            if f[0] == "import":
-                r_ = self.stdlib_call(f[1], args, {}, node)
-                if r_ is not NotImplemented:
-                    return r_
-            if f[0] == "boundmethod" and hasattr(self, "call_bound"):
-                return self.call_bound(f[2], f[1], args, {}, node)
+    def call_value(self, f, args, node, kwargs=None):
+        """call a function value (closure, module function, operator, builtin, partial, bound method) on evaluated arguments"""
+        if isinstance(f, tuple) and f and isinstance(f[0], str):
+            return self.dispatch_call(f, list(args), dict(kwargs or {}), node)
         raise AnalysisError("E3: call of a value that is not a known function (line %d)" % getattr(node, "lineno", 0))
+
+    def get_attribute(self, base, attr, node):
+        """attribute of an evaluated value (records and named tuples; the object-aware interpreter adds classes)"""
+        if isinstance(base, NTuple) and attr in base.nt_fields:
+            return base[base.nt_fields.index(attr)]
+        if isinstance(base, Obj) and attr in base.attrs:
+            return base.attrs[attr]
+        raise AnalysisError("E3: attribute `%s` of %s (line %d)" % (attr, type(base).__name__, getattr(node, "lineno", 0)))
 
     OPERATORS = {"operator.add": ast.Add, "operator.sub": ast.Sub, "operator.mul": ast.Mult, "operator.truediv": ast.Div,
                  "operator.mod": ast.Mod, "operator.pow": ast.Pow, "operator.matmul": ast.MatMult, "operator.floordiv": ast.FloorDiv}
@@ -1688,8 +1764,12 @@ class Evaluator:
             return self.binop(ast.Mult(), Rat.const(-1), args[0], node)
         if name == "operator.itemgetter" and args:
             keys = list(args)
-            return ("closure", ast.parse("lambda _x: %s" % (", ".join("_x[_k%d]" % i for i in range(len(keys))) + ("," if len(keys) > 1 else ""))
+            return ("closure", ast.parse("lambda _x: (%s)" % (", ".join("_x[_k%d]" % i for i in range(len(keys))) + ("," if len(keys) > 1 else ""))
                                          , mode="eval").body, {"_k%d" % i: k for i, k in enumerate(keys)})
+        if name == "functools.partial" and args:
+            return ("partial", args[0], tuple(args[1:]), dict(kwargs))
+        if name == "operator.attrgetter" and args and all(isinstance(a_, str) and "." not in a_ for a_ in args):
+            return ("attrgetter", tuple(args))
         if name == "functools.reduce" and 2 <= len(args) <= 3:
             seq = self.as_sequence(args[1], node)
             if len(args) == 3:
@@ -1710,6 +1790,35 @@ class Evaluator:
             if len(out) > 100000:
                 raise AnalysisError("E3: itertools.product too long (line %d)" % node.lineno)
             return out
+        if name == "itertools.starmap" and len(args) == 2:
+            return [self.call_value(args[0], list(self.as_sequence(t_, node)), node) for t_ in self.as_sequence(args[1], node)]
+        if name == "itertools.accumulate" and 1 <= len(args) <= 2 and set(kwargs) <= {"initial"}:
+            seq_ = self.as_sequence(args[0], node)
+            out_, acc_ = [], kwargs.get("initial")
+            if acc_ is not None:
+                out_.append(acc_)
+            for x_ in seq_:
+                if acc_ is None:
+                    acc_ = x_
+                else:
+                    acc_ = self.call_value(args[1], [acc_, x_], node) if len(args) == 2 else self.binop(ast.Add(), acc_, x_, node)
+                out_.append(acc_)
+            return out_
+        if name == "itertools.compress" and len(args) == 2:
+            sel_ = self.as_sequence(args[1], node)
+            flags_ = []
+            for f_ in sel_:
+                if isinstance(f_, Rat) and f_.is_const():
+                    f_ = f_.const_value() != 0
+                if not isinstance(f_, bool):
+                    raise AnalysisError("E3: itertools.compress with selectors that are not decided (line %d)" % node.lineno)
+                flags_.append(f_)
+            return [x_ for x_, f_ in zip(self.as_sequence(args[0], node), flags_) if f_]
+        if name == "itertools.zip_longest" and args:
+            seqs_ = [self.as_sequence(a_, node) for a_ in args]
+            fill_ = kwargs.get("fillvalue")
+            n_ = max(len(s_) for s_ in seqs_)
+            return [tuple(s_[i_] if i_ < len(s_) else fill_ for s_ in seqs_) for i_ in range(n_)]
         if name == "itertools.chain":
             out = []
             for a in args:
@@ -1725,9 +1834,9 @@ class Evaluator:
             if any(i is None and a is not None for i, a in zip(ints, args[1:])):
                 raise AnalysisError("E3: islice with non-constant bounds (line %d)" % node.lineno)
             return list(_it.islice(self.as_sequence(args[0], node), *ints))
-        if name in ("itertools.permutations", "itertools.combinations") and len(args) >= 1:
+        if name in ("itertools.permutations", "itertools.combinations", "itertools.combinations_with_replacement") and len(args) >= 1:
             r = const_int(args[1]) if len(args) > 1 else None
-            f = _it.permutations if name.endswith("permutations") else _it.combinations
+            f = _it.permutations if name.endswith("permutations") else _it.combinations_with_replacement if name.endswith("replacement") else _it.combinations
             return [tuple(t) for t in (f(self.as_sequence(args[0], node), r) if r is not None else f(self.as_sequence(args[0], node)))]
         if name == "itertools.repeat" and len(args) == 2 and const_int(args[1]) is not None:
             return [args[0]] * const_int(args[1])
@@ -2048,6 +2157,8 @@ class Evaluator:
             return base.get(k, args[1] if len(args) == 2 else None)
         if attr in ("keys", "values", "items") and isinstance(base, dict) and not args:
             return list(getattr(base, attr)())
+        if attr == "swapaxes" and len(args) == 2:
+            return self.np_call("swapaxes", [base] + list(args), kwargs, node)
         if attr == "transpose" and not args:
             return self.np_transpose(base, node)
         if attr == "transpose" and args:
@@ -2226,6 +2337,8 @@ class Evaluator:
             return Arr([self.np_dot(Arr(x), Arr(y), node).data for x, y in zip(A.data, B.data)])
         if ra == 3 and rb == 1:
             return Arr([self.np_dot(Arr(m), B, node).data for m in A.data])
+        if ra == 1 and rb == 3:
+            return Arr([self.np_dot(A, Arr(m), node).data for m in B.data])      # v @ stack: one row v.M per matrix
         raise AnalysisError("E3: matmul of shapes %s and %s (line %d)" % (A.shape, B.shape, getattr(node, "lineno", 0)))
 
     def np_dot(self, a, b, node):
@@ -2572,6 +2685,13 @@ class Evaluator:
                     return [rec(x) for x in d] if isinstance(d, list) else sg(d)
                 return Arr(rec(A.data))
             return sg(v)
+        if name == "swapaxes" and len(args) == 3 and not kwargs:
+            A_ = args[0] if isinstance(args[0], Arr) else materialise(args[0])
+            i_, j_ = const_int(args[1]), const_int(args[2])
+            if A_ is not None and i_ is not None and j_ is not None:
+                axes_ = list(range(len(A_.shape)))
+                axes_[i_], axes_[j_] = axes_[j_], axes_[i_]
+                return self.np_transpose_axes(A_, axes_, node)
         if name == "einsum" and len(args) >= 2 and isinstance(args[0], str) and not kwargs:
             return self.np_einsum(args[0], args[1:], node)
         if name == "matmul" and len(args) == 2 and not kwargs:
@@ -2756,6 +2876,23 @@ class Evaluator:
                             + m[0][2] * (m[1][0] * m[2][1] - m[1][1] * m[2][0]))
                 return det_(A.data) if len(A.shape) == 2 else Arr([det_(m) for m in A.data])
             return Rat.atom("det(%s)" % vkey(args[0]))
+        if name == "isclose" and len(args) >= 2 and set(kwargs) <= {"rtol", "atol"}:
+            # element-wise allclose: one tolerance guard per element
+            def shape_(v_):
+                A_ = v_ if isinstance(v_, Arr) else materialise(v_) if isinstance(v_, (list, tuple, Opaque)) else None
+                return A_
+            A_, B_ = shape_(args[0]), shape_(args[1])
+            if A_ is None and B_ is None:
+                return self._np_call("allclose", args, kwargs, node)
+            if (A_ is not None and isinstance(args[0], Opaque) and A_ is None) or (isinstance(args[1], Opaque) and B_ is None):
+                raise Undecided("E3: isclose of arrays of unknown shape (line %d)" % node.lineno)
+
+            def rec_(x_, y_):
+                if isinstance(x_, list) or isinstance(y_, list):
+                    n_ = len(x_) if isinstance(x_, list) else len(y_)
+                    return [rec_(x_[i_] if isinstance(x_, list) else x_, y_[i_] if isinstance(y_, list) else y_) for i_ in range(n_)]
+                return self._np_call("allclose", [x_, y_] + list(args[2:]), kwargs, node)
+            return rec_(A_.data if A_ is not None else scalar(args[0]), B_.data if B_ is not None else scalar(args[1]))
         if name == "allclose" and len(args) >= 2 and set(kwargs) <= {"rtol", "atol"}:
             # all(|a - b| <= atol + rtol*|b|): a tolerance guard.  Folded when it folds; otherwise a rule has to say which side of
             # the guard it analyses (close_policy), or the sign oracle forks on it; never answered silently.
@@ -2898,6 +3035,32 @@ def exact_inverse(A: Arr):
     if det.is_zero():
         return None
     return Arr([[cof(j, i) / det for j in range(3)] for i in range(3)])
+
+
+def local_names(fn):
+    """names a function body binds (assignment, loop, with, import, def): unbound use of one of them is Python's UnboundLocalError"""
+    cache = local_names.__dict__.setdefault("cache", {})
+    if id(fn) in cache:
+        return cache[id(fn)]
+    out = set()
+    stack = list(getattr(fn, "body", [])) if not isinstance(fn, ast.Lambda) else []
+    while stack:
+        n_ = stack.pop()
+        if isinstance(n_, (ast.FunctionDef, ast.ClassDef)):
+            out.add(n_.name)
+            continue
+        if isinstance(n_, ast.Lambda):
+            continue
+        if isinstance(n_, ast.Name) and isinstance(n_.ctx, (ast.Store, ast.Del)):
+            out.add(n_.id)
+        if isinstance(n_, (ast.Import, ast.ImportFrom)):
+            for a_ in n_.names:
+                out.add((a_.asname or a_.name).split(".")[0])
+        if isinstance(n_, (ast.ListComp, ast.SetComp, ast.DictComp, ast.GeneratorExp)):
+            continue            # comprehension variables live in their own scope
+        stack.extend(ast.iter_child_nodes(n_))
+    cache[id(fn)] = out
+    return out
 
 
 def is_generator(fn):
